@@ -115,7 +115,11 @@ class SshdFamily(Family):
             return G.form_cases(rng, 6300 * n) + G.long_cases(rng, 18 * n) + dm + fr
         if p == "C17":
             self.rule = "invalid-user / failed-password / max-attempts forms with client-chosen names (spaces, ' from ', ' port ', embedded fragments) x addresses x ports"
-            return G.form_cases(rng, 6000 * n, forms=G.C17_FORMS, adversarial_every=1) + G.form_cases(rng, 1500 * n, forms=G.C17_FORMS)
+            # in the running daemon the message reaches the processor through the syslog ingester, which must hand over the
+            # very bytes sshd printed (an empty name, or one with runs of blanks, is two or more adjacent blanks in the line)
+            fr = [dict(c, framed=True) for c in self._c07()._prep(G.form_cases(rng, 1500 * n, forms=G.C17_FORMS, adversarial_every=1), rng)]
+            self.rule += "; plus %d such messages framed '<pid> <msg>\\n' through SyslogIngester.Process (same event as the direct call)" % len(fr)
+            return G.form_cases(rng, 6000 * n, forms=G.C17_FORMS, adversarial_every=1) + G.form_cases(rng, 1500 * n, forms=G.C17_FORMS) + fr
         if p == "C05":
             self.rule = "accepted forms x PID tokens x {write ok, write fails} x {correlator ready, cancelled}; plus failure forms and malformed lines (must not forward)"
             return (G.form_cases(rng, 3000 * n, forms=G.ACCEPTED, oks=("ok", "ok", "fail"), hands=("ready", "cancel"), pids=G.PIDS_OK) +
